@@ -1,10 +1,31 @@
 import Model.Common.Proto
-open Btc
+import Model.C18.Fee
+import Generated.Fee
+open Btc Btc.C18
 
 /-- line protocol of property C18: see harness/c18.py -/
 def handle : List String → String
-  -- one line per generated module this driver serves, e.g.
-  -- | "gen" :: "VarInt" :: fn :: args => (Gen.VarInt.dispatch fn args).getD "bad-op"
+  | "gen" :: "Fee" :: fn :: args => (Gen.Fee.dispatch fn args).getD "bad-op"
+  | ["fee.fee_from_vsize", v, r] =>
+    match parseInt? v, parseInt? r with
+    | some v, some r => Gen.render (feeFromVsize v r)
+    | _, _ => "bad-op"
+  | ["fee.package_fee", v, r, av, af] =>
+    match parseInt? v, parseInt? r, parseInt? av, parseInt? af with
+    | some v, some r, some av, some af => Gen.render (packageFee v r av af)
+    | _, _, _, _ => "bad-op"
+  | ["fee.dust", hex, r] =>
+    match fromHex? hex, parseInt? r with
+    | some s, some r => Gen.render (dustThreshold s r)
+    | _, _ => "bad-op"
+  | ["fee.core_dust", hex, r] =>
+    match fromHex? hex, r.toNat? with
+    | some s, some r => s!"ok {Core.getDustThreshold s r}"
+    | _, _ => "bad-op"
+  | ["fee.is_segwit", hex] =>
+    match fromHex? hex with
+    | some s => if isSegwit s then "ok True" else "ok False"
+    | none => "bad-op"
   | _ => "bad-op"
 
 def main : IO Unit := runLoop handle
